@@ -60,7 +60,7 @@ TABLE = [
      {"window_size": (5, [1, 3, 5, 13], [0, 2, 10, -5, "5", 5.5]),
       "subpix": (1, [1, 2, 4], [3, 5, 0, "1"])}),
     ("aggregation", "aggregation_method", "cbca",
-     {"cbca_intensity": (30.0, [30.0, 0.5, 1e-9, 200.0], [0.0, -1.0, -30.0, "30", None, [30.0]]),
+     {"cbca_intensity": (30.0, [30.0, 0.5, 1e-9, 200.0], [0.0, -1.0, -30.0, "30", None, [30.0], NAN, "NaN"]),
       "cbca_distance": (5, [1, 2, 5, 50], [0, -1, -5, 5.0, 2.5, "5", None])}),
     ("disparity", "disparity_method", "wta",
      {"invalid_disparity": (-9999, [-9999, 0, 5, 1.5, -0.5, NAN, "NaN"], ["abc", None, [1], {"a": 1}])}),
@@ -69,8 +69,8 @@ TABLE = [
     ("filter", "filter_method", "median",
      {"filter_size": (3, [1, 3, 5, 7, 21], [0, -1, -3, 2, 4, 10, 3.0, "3", None])}),
     ("filter", "filter_method", "bilateral",
-     {"sigma_color": (2.0, [2.0, 0.1, 1e-9, 50.0], [0.0, -1.0, -2.0, "2", None]),
-      "sigma_space": (6.0, [6.0, 0.1, 1.5, 20.0], [0.0, -0.5, -6.0, "6", None])}),
+     {"sigma_color": (2.0, [2.0, 0.1, 1e-9, 50.0], [0.0, -1.0, -2.0, "2", None, NAN, "NaN"]),
+      "sigma_space": (6.0, [6.0, 0.1, 1.5, 20.0], [0.0, -0.5, -6.0, "6", None, NAN, "NaN"])}),
     ("filter", "filter_method", "median_for_intervals",
      {"filter_size": (3, [1, 3, 5], [0, 2, -3, "3", 3.0]),
       "regularization": (False, [True, False], ["true", None, 2]),
@@ -82,15 +82,15 @@ TABLE = [
      {"cross_checking_threshold": (1.0, [1.0, 0, 1, 0.4, 2.5], ["1", None, [1]]),
       "interpolated_disparity": ("__absent__", ["mc-cnn", "sgm"], ["mc_cnn", "none", "MC-CNN", 3, None])}),
     ("cost_volume_confidence", "confidence_method", "ambiguity",
-     {"eta_max": (0.7, [0.7, 0.1, 0.99, 1e-6], [0.0, -0.1, -0.7, "0.7", None]),
-      "eta_step": (0.01, [0.01, 0.1, 0.5], [0.0, -0.01, "0.01", None]),
+     {"eta_max": (0.7, [0.7, 0.1, 0.99, 1e-6], [0.0, -0.1, -0.7, "0.7", None, NAN, "NaN"]),
+      "eta_step": (0.01, [0.01, 0.1, 0.5], [0.0, -0.01, "0.01", None, NAN, "NaN"]),
       "normalization": (True, [True, False], ["true", None, 0.5])}),
     ("cost_volume_confidence", "confidence_method", "risk",
-     {"eta_max": (0.7, [0.7, 0.2, 0.99], [0.0, -0.5, "0.7"]),
+     {"eta_max": (0.7, [0.7, 0.2, 0.99], [0.0, -0.5, "0.7", NAN]),
       "eta_step": (0.01, [0.01, 0.3], [0.0, -0.1, "x"])}),
     ("cost_volume_confidence", "confidence_method", "std_intensity", {}),
     ("cost_volume_confidence", "confidence_method", "interval_bounds",
-     {"possibility_threshold": (0.9, [0.0, 0.5, 0.9, 1.0], [-0.1, 1.1, "0.9", None]),
+     {"possibility_threshold": (0.9, [0.0, 0.5, 0.9, 1.0], [-0.1, 1.1, "0.9", None, NAN, "NaN"]),
       "regularization": (False, [True, False], ["no", 3]),
       "ambiguity_threshold": (0.6, [0.0, 0.6, 1.0], [-0.5, 2.0]),
       "ambiguity_kernel_size": (5, [1, 5, 7], [0, 4, -3]),
